@@ -23,6 +23,7 @@ import (
 	sdk "github.com/cosmos/cosmos-sdk/types"
 	authtypes "github.com/cosmos/cosmos-sdk/x/auth/types"
 	distributiontypes "github.com/cosmos/cosmos-sdk/x/distribution/types"
+	govtypes "github.com/cosmos/cosmos-sdk/x/gov/types"
 	"github.com/lavanet/lava/v5/testutil/common"
 	"github.com/lavanet/lava/v5/utils/sigs"
 	dualstakingtypes "github.com/lavanet/lava/v5/x/dualstaking/types"
@@ -72,11 +73,11 @@ type scen struct {
 }
 
 type snap struct {
-	valDist, valAlloc, valLeft, provDist, provAlloc, feeColl, dualst, submod, community, supply sdk.Int
+	valDist, valAlloc, valLeft, provDist, provAlloc, feeColl, dualst, submod, community, iprpc, supply sdk.Int
 }
 
 func (x snap) String() string {
-	return fmt.Sprintf("valDist=%s valAlloc=%s valLeft=%s provDist=%s provAlloc=%s fee=%s dualst=%s sub=%s comm=%s supply=%s", x.valDist, x.valAlloc, x.valLeft, x.provDist, x.provAlloc, x.feeColl, x.dualst, x.submod, x.community, x.supply)
+	return fmt.Sprintf("valDist=%s valAlloc=%s valLeft=%s provDist=%s provAlloc=%s fee=%s dualst=%s sub=%s comm=%s iprpc=%s supply=%s", x.valDist, x.valAlloc, x.valLeft, x.provDist, x.provAlloc, x.feeColl, x.dualst, x.submod, x.community, x.iprpc, x.supply)
 }
 
 func (s *scen) snap() snap {
@@ -91,6 +92,7 @@ func (s *scen) snap() snap {
 		dualst:    w.ModuleBalance(dualstakingtypes.ModuleName),
 		submod:    w.ModuleBalance(subscriptiontypes.ModuleName),
 		community: w.ModuleBalance(distributiontypes.ModuleName),
+		iprpc:     w.ModuleBalance(string(rewardstypes.IprpcPoolName)),
 		supply:    w.Supply(),
 	}
 }
@@ -207,6 +209,42 @@ func build() *scen {
 			s.variants = append(s.variants, vr)
 			back()
 		}
+	}
+	// "iprpc": 1 May c0 subscribes and is made IPRPC-eligible, c1 funds the IPRPC pool for June and July; the June
+	// refill has passed and p0 served c0 in June: the July refill distributes IPRPC rewards (with validators' and
+	// community participation) inside the refill callback, where no refill timer exists
+	for _, r := range rates {
+		back := w.Fork()
+		params := w.Keepers.Rewards.GetParams(w.Ctx)
+		params.LeftoverBurnRate = r.rate
+		w.Keepers.Rewards.SetParams(w.Ctx, params)
+		w.Must("buy c0", w.Buy(s.cons[0], s.cons[0], plan.Index, 6, false, false))
+		w.Must("iprpc data", w.Tx(func() error {
+			_, err := w.TxRewardsSetIprpcDataProposal(authtypes.NewModuleAddress(govtypes.ModuleName).String(), sdk.NewCoin(w.TokenDenom(), sdk.NewInt(100)), []string{s.cons[0].Addr.String()})
+			return err
+		}))
+		w.Must("fund iprpc", w.Tx(func() error {
+			msg := rewardstypes.NewMsgFundIprpc(s.cons[1].Addr.String(), spec, 2, sdk.NewCoins(sdk.NewCoin(w.TokenDenom(), sdk.NewInt(500000))))
+			if err := msg.ValidateBasic(); err != nil {
+				return err
+			}
+			_, err := w.Servers.RewardsServer.FundIprpc(w.GoCtx, msg)
+			return err
+		}))
+		epoch()
+		w.Must("pay", s.pay(0, 0))
+		adv(chain.BlockDt)
+		adv(time.Unix(s.refillTime(), 0).Add(time.Minute).Sub(w.Ctx.BlockTime()))
+		adv(chain.BlockDt) // the June refill
+		epoch()
+		w.Must("pay", s.pay(0, 0)) // June traffic of the eligible subscription
+		adv(chain.BlockDt)
+		vr := variant{name: "iprpc/" + r.name, rate: r.rate, start: w.Ctx.BlockTime(),
+			monthsLeft: w.Keepers.Rewards.AllocationPoolMonthsLeft(w.Ctx),
+			provStart:  w.ModuleBalance(string(rewardstypes.ProviderRewardsDistributionPool))}
+		vr.enter = w.Fork()
+		s.variants = append(s.variants, vr)
+		back()
 	}
 	for i, vr := range s.variants {
 		s.ops = append(s.ops, opdef{name: "fixture:" + vr.name, kind: 6, n: i})
@@ -455,7 +493,11 @@ func (s *scen) block(dt time.Duration, obs map[string]bool) []ev.Violation {
 		}
 		// bonus = what the dualstaking module (claimable rewards) received beyond the providers' part of the
 		// subscription payouts of the same phase (subscription outflow - validators' - community participation)
-		bonus := mid.dualst.Sub(pre.dualst).Add(mid.submod.Sub(pre.submod)).Add(part).Add(mid.community.Sub(pre.community))
+		// (the IPRPC pool pays providers, validators and community in the same callback: its outflow is subtracted too)
+		bonus := mid.dualst.Sub(pre.dualst).Add(mid.submod.Sub(pre.submod)).Add(mid.iprpc.Sub(pre.iprpc)).Add(part).Add(mid.community.Sub(pre.community))
+		if mid.iprpc.LT(pre.iprpc) {
+			obs["iprpc-distribution-at-refill"] = true
+		}
 		if bonus.IsPositive() {
 			obs["bonus"] = true
 		}
